@@ -363,6 +363,9 @@ impl<'a> Lexer<'a> {
                 return Ok(Token::StringTok);
             }
         }
+        // Consume the final byte so that the error span ends at the end of the text and not in the
+        // middle of a multi-byte character.
+        self.bytes.next();
         Err("Unterminated multiline string. Add \"# after the end of your string.".to_string())
     }
 
